@@ -25,6 +25,8 @@ def c01(tier, seed):
     # frozen clock => acceptance waits must be zero, or a controlling agent never nominates a srflx/prflx remote
     runs = [dict(cfg=c, traces=w, drain=True, notime=True, zerowait=True, preds=C01_PREDS) for c in ("p11", "pnat", "pnatc", "p21n", "prst", "p22")]
     runs[0]["scheds"] = ["c01_triggered_check_after_budget"]
+    # p22 has a pair that is the lower-priority one on BOTH sides (in p21n the controlling side's two local host candidates tie)
+    runs[5]["scheds"] = ["c01_better_pair_validates_while_nominating"]
     runs.append(dict(cfg="poneway", traces=n(tier, 60, 500), drain=True, notime=True, preds=C01_PREDS))
     runs.append(dict(cfg="prole", traces=n(tier, 60, 500), drain=True, notime=True, preds=C01_PREDS))
     plan = {"runs": runs,
